@@ -199,6 +199,8 @@ func TestVReplay(t *testing.T) {
 			tags = append(tags, k)
 		}
 		jb, _ := json.Marshal(tags)
+		ob, _ := json.Marshal(vObs)
+		fmt.Printf("VREPLAY-OBS file=%%s obs=%%s\n", f, ob)
 		fmt.Printf("VREPLAY-RESULT file=%%s failed=%%s\n", f, jb)
 	}
 }
@@ -237,11 +239,17 @@ func TestVReplay(t *testing.T) {
 		json.Unmarshal([]byte(m[2]), &tags)
 		res[m[1]] = tags
 	}
+	ro := regexp.MustCompile(`(?m)^VREPLAY-OBS file=(\S+) obs=(.*)$`)
+	for _, m := range ro.FindAllStringSubmatch(string(out), -1) {
+		nativeObs[m[1]] = m[2]
+	}
 	if len(res) < len(vecs) {
 		return res, string(out), fmt.Errorf("native replay did not report all vectors (go test: %v)", err)
 	}
 	return res, string(out), nil
 }
+
+var nativeObs = map[string]string{}
 
 func tagReproduced(tag string, failed []string) bool {
 	for _, f := range failed {
@@ -503,7 +511,7 @@ func cmdCheck(args []string) {
 							newViol++
 							exit = 1
 							fmt.Printf("VIOLATION property=%s replay=%s\n", id, f.file)
-							fmt.Printf("  entry=%s case=%d assertion=%q inputs=%v observations=%v\n", f.run.Entry, f.c, f.v.Tag, prettyInputs(f.v), f.v.Obs)
+							fmt.Printf("  entry=%s case=%d assertion=%q inputs=%v observations=%v native-observations=%s\n", f.run.Entry, f.c, f.v.Tag, prettyInputs(f.v), f.v.Obs, nativeObs[f.file])
 						}
 					} else {
 						fail2(fmt.Sprintf("engine/native disagreement: %s case %d tag %q inputs %v not reproduced natively (native failed=%v)",
